@@ -119,6 +119,7 @@ enum method : unsigned
   m_or_split,
   m_proxy_copy,
   m_init_proxy,
+  m_array_ctor,
   m_count
 };
 // the judged function a construction method exercises (first component of the violation key)
@@ -137,11 +138,13 @@ char const *const method_fn[m_count] = {"set",
                                         "operator&=",
                                         "operator|",
                                         "operator[]=",
-                                        "init"};
+                                        "init",
+                                        "object(array)"};
 char const *const method_tag[m_count] = {"set-ascending",   "set-descending", "initializer-list", "init",
                                          "clear-from-full", "index-assign",   "or-assign-element", "or-element",
                                          "not-of-complement", "double-not",   "xor-with-full",    "and-assign-not",
-                                         "or-of-halves",   "index-assign-from-proxy", "init-from-proxy-returning-function"};
+                                         "or-of-halves",   "index-assign-from-proxy", "init-from-proxy-returning-function",
+                                         "from-the-array-of-another-bitfield"};
 
 template <class E, unsigned N, class W>
 struct world
@@ -262,6 +265,12 @@ struct world
     switch (how)
     {
     case m_canon: return canon(m);
+    case m_array_ctor:
+    {
+      // a bitfield built from the storage array of another one holds the same enumerators (object(array_type const &))
+      bf const src(canon(m));
+      return bf(src.array());
+    }
     case m_set_desc:
     {
       bf r(bf::null());
